@@ -19,23 +19,23 @@ Definition witness : list (event Z expr) :=
    PassBegin; PassRead 0%nat; PassRead 1%nat; PassEnd].                            (* p1 reads back 2; nothing depends on p1 *)
 
 Lemma C01_old_refuted_b :
-  match hrun false true [0%nat; 1%nat] (init [Some 1; Some 1]) witness with
+  match hrun false true false [0%nat; 1%nat] (init [Some 1; Some 1]) witness with
   | Some s => quiescent_b s && negb (follows_b s 1%nat)
   | None => false
   end = true.
 Proof. vm_compute. reflexivity. Qed.
 
 Lemma C01_old_refuted :
-  exists s, hrun false true [0%nat; 1%nat] (init [Some 1; Some 1]) witness = Some s
+  exists s, hrun false true false [0%nat; 1%nat] (init [Some 1; Some 1]) witness = Some s
             /\ quiescent_b s = true /\ follows_b s 1%nat = false.
 Proof.
   pose proof C01_old_refuted_b as H.
-  destruct (hrun false true [0%nat; 1%nat] (init [Some 1; Some 1]) witness) as [s|]; [|discriminate].
+  destruct (hrun false true false [0%nat; 1%nat] (init [Some 1; Some 1]) witness) as [s|]; [|discriminate].
   exists s. apply andb_true_iff in H. destruct H as [H1 H2]. apply negb_true_iff in H2. repeat split; assumption.
 Qed.
 
 (* the same trace is refused by the model of the fixed code: the evaluation task is still refreshing *)
-Lemma C01_witness_refused_when_fixed : hrun true true [0%nat; 1%nat] (init [Some 1; Some 1]) witness = None.
+Lemma C01_witness_refused_when_fixed : hrun true true false [0%nat; 1%nat] (init [Some 1; Some 1]) witness = None.
 Proof. vm_compute. reflexivity. Qed.
 
 (* enable() that does not force the evaluation of all expressions: s = ADD($p0, $p1); disable p0; p1: 1 -> 9; enable p0:
@@ -52,7 +52,7 @@ Definition witness_enable : list (event Z expr) :=
    PassBegin; PassRead 0%nat; PassRead 1%nat; PassRead 2%nat; PassEnd].
 
 Lemma C01_enable_old_refuted_b :
-  match hrun true false [0%nat; 1%nat; 2%nat] (init [Some 5; Some 1; Some 0]) witness_enable with
+  match hrun true false false [0%nat; 1%nat; 2%nat] (init [Some 5; Some 1; Some 0]) witness_enable with
   | Some s => quiescent_b s && negb (follows_b s 2%nat)
   | None => false
   end = true.
@@ -75,8 +75,24 @@ Definition witness_disable_busy : list (event Z expr) :=
    PassBegin; PassRead 0%nat; PassRead 1%nat; PassEnd].
 
 Lemma C01_disable_busy_refuted_b :
-  match hrun true true [0%nat; 1%nat] (init [Some 1; Some 1]) witness_disable_busy with
+  match hrun true true false [0%nat; 1%nat] (init [Some 1; Some 1]) witness_disable_busy with
   | Some s => quiescent_b s && negb (follows_b s 1%nat)
   | None => false
   end = true.
+Proof. vm_compute. reflexivity. Qed.
+
+(* Before the fix "disabling a port did not re-evaluate the expressions reading it": the state the real hub reported at rest
+   after  p1 := DEFAULT($p0, 1); p2 := AVAILABLE($p0); disable p0  (p1 still 0, p2 still true) contradicts the specification
+   of the typed stream; the state it reports now does not. *)
+From QT Require Import C01.RichRun.
+Open Scope string_scope.
+Definition disable_exprs : list (string * expr) :=
+  [("p1", Call "DEFAULT" [PortVal "p0"; Lit (Some (VInt 1))]); ("p2", Call "AVAILABLE" [PortVal "p0"])].
+Lemma C01_disable_not_followed_old :
+  rich_case ([("p0", KInt, false, Some (VInt 0)); ("p1", KInt, true, Some (VInt 0)); ("p2", KBool, true, Some (VBool true))],
+             disable_exprs) = false.
+Proof. vm_compute. reflexivity. Qed.
+Lemma C01_disable_followed_now :
+  rich_case ([("p0", KInt, false, Some (VInt 0)); ("p1", KInt, true, Some (VInt 1)); ("p2", KBool, true, Some (VBool false))],
+             disable_exprs) = true.
 Proof. vm_compute. reflexivity. Qed.
